@@ -261,6 +261,16 @@ def scenario_module(rng, tok: Tok):
         "ScnOrdered/compare_with": {"kind": "method", "model": dc_last},
         "<module>": {"kind": "module", "model": DocModel()},
     }
+    # several results, named and unnamed ones mixed (NumPy style only): every description belongs to the result of its
+    # own position, whatever name that result gets in the signature
+    mixed = [("first", "int", tok.line(rng, "r")), (None, "str", tok.line(rng, "r")), ("third", "bool", tok.line(rng, "r")), (None, "float", tok.line(rng, "r"))]
+    exp, unnamed = [], 0
+    for nm_, _t, ln in mixed:
+        if nm_ is None:
+            unnamed += 1
+        exp.append((ln, f"@result {nm_ or 'result_' + str(unnamed)} "))
+    gt["mixed_results"] = {"kind": "raw", "expected": {"numpydoc": exp}}
+    mixed_doc = "Mixed.\n\nReturns\n-------\n" + "".join((f"{nm_} : {t}\n" if nm_ else f"{t}\n") + f"    {ln}\n" for nm_, t, ln in mixed)
 
     def render(style: str) -> str:
         def meth(m, ind):
@@ -276,6 +286,7 @@ def scenario_module(rng, tok: Tok):
             f"import dataclasses\n\n\n@dataclasses.dataclass(order=True)\nclass ScnOrdered:\n{pydoc(dc_doc.render(style), '    ')}\n    size: int = 0\n\n"
             f"    def __init__(self, size: int = 0) -> None:\n        self.size = size\n\n"
             f"    def compare_with(self, other: int) -> int:\n{pydoc(dc_last.render(style), '        ')}        return other\n"
+            + (f"\n\ndef mixed_results() -> tuple[int, str, bool, float]:\n{pydoc(mixed_doc, '    ')}    return 1, 'a', True, 1.0\n" if style == "numpydoc" else "\n\ndef mixed_results() -> tuple[int, str, bool, float]:\n    return 1, 'a', True, 1.0\n")
         )
 
     return render, gt
@@ -376,6 +387,10 @@ def make_judge(chk: Check):
             for path, g in gt.items():
                 if g["kind"] == "attribute":
                     continue
+                if g["kind"] == "raw":
+                    for ln, prefix in g["expected"].get(style, []):
+                        expect_line(path, ln, "result-of-several", prefix)
+                    continue
                 mdl: DocModel = g["model"]
                 if mdl.summary is None and g["kind"] != "class":
                     continue
@@ -387,6 +402,10 @@ def make_judge(chk: Check):
                 if g["kind"] == "module":
                     for ln in [mdl.summary, *mdl.body]:
                         expect_line(path, ln, "module-text")
+                    continue
+                if g["kind"] == "raw":
+                    for ln, prefix in g["expected"].get(style, []):
+                        expect_line(path, ln, "result-of-several", prefix)
                     continue
                 if mdl.summary is not None:
                     for ln in [mdl.summary, *mdl.body]:
@@ -417,7 +436,8 @@ def make_judge(chk: Check):
                 if g["kind"] == "class" and g["init"].summary is not None and (case.meta.get("probe") or not (style != "numpydoc" and "doc:init-docstring-params" in gated_features())):
                     for n, _t, d in g["init"].params:
                         expect_line(path, d[0], "ctor-param-from-init-docstring", f"@param {n} ")
-            per_element[m.py_module] = {p: ln for p, ln in elem_lines.items()}
+            # elements documented in one style only (mixed named / unnamed results) are no subject of the style relation
+            per_element[m.py_module] = {p: ln for p, ln in elem_lines.items() if (gt.get(p) or {}).get("kind") != "raw"}
         # style relation
         if case.meta["common"] and style != "plaintext":
             key = case.meta["model"]
